@@ -243,6 +243,8 @@ func runC12(c *Ctx) {
 	c.Doc("R12.5", "identity and title matching compare lower-cased text on both sides")
 	c.Doc("R12.6", "no explicit panic and no unguarded constant-index access reachable from query.Parse")
 	checkCompileMatcher(c)
+	checkExcerptDataPath(c, "R12.9")
+	checkRepairQuery(c)
 	checkMatch(c)
 	checkLexerAutomaton(c)
 	checkTokenize(c)
@@ -1032,10 +1034,35 @@ func checkLexerAutomaton(c *Ctx) {
 		}
 	}
 	if clos == nil {
+		for _, cl := range Calls(sf) {
+			if cl.Name == "strings.Builder.WriteByte" {
+				c.Violate("R12.7", "splitFunc:iterates-runes", w.InstrPos(cl.Instr), "the chunk is built byte by byte: the separator predicate (unicode.IsSpace) and the quote test are applied to the bytes of multi-byte characters, so a value containing a character whose encoding has a byte 0x85 or 0xA0 is cut inside the character")
+				return
+			}
+		}
 		c.Undecided("R12.7", "splitFunc:classifier", pos, "no closure call guarding the write into the chunk found")
 		return
 	}
 	cfn := clos.Fn.(*ssa.Function)
+	// the classified rune is a rune of the input: the loop ranges over the input string
+	{
+		okRune := false
+		if len(classCall.Common().Args) == 1 {
+			if ex, isEx := classCall.Common().Args[0].(*ssa.Extract); isEx && ex.Index == 2 {
+				if nx, isNx := ex.Tuple.(*ssa.Next); isNx && nx.IsString {
+					if rg, isRg := nx.Iter.(*ssa.Range); isRg {
+						for _, o := range origins(rg.X) {
+							if o.Kind == "param" && isStringType(o.Val.Type()) {
+								okRune = true
+							}
+						}
+					}
+				}
+			}
+		}
+		c.Check(okRune, "R12.7", "splitFunc:iterates-runes", w.InstrPos(classCall), "the runes classified are those of a range over the input string",
+			"the value classified is not a rune of a range over the input string: classifying bytes or code units cuts multi-byte characters at bytes that look like separators")
+	}
 	// written rune = classified rune
 	c.Check(len(write.Common().Args) == 2 && len(classCall.Common().Args) == 1 && write.Common().Args[1] == classCall.Common().Args[0],
 		"R12.7", "splitFunc:accepted-rune-written", w.InstrPos(write), "the rune written is the rune classified", "the rune written to the chunk is not the rune that was classified")
